@@ -31,7 +31,7 @@ impl Prop for C09 {
         ]
     }
     fn phases(&self, tier: Tier) -> Vec<Phase> {
-        vec![Phase::new("inputs", tier.pick(8000, 300000)).min_cases(tier.pick(2000, 60000)).timeouts(120, tier.pick(300, 1700))]
+        vec![Phase::new("inputs", tier.pick(8000, 600000)).min_cases(tier.pick(2000, 100000)).timeouts(120, tier.pick(300, 1700))]
     }
     fn worker(&self, _ctx: &WorkerCtx) -> Box<dyn Worker> {
         Box::new(W { vms: [None, None], used: 0, files: None })
